@@ -25,7 +25,7 @@ SetPretty == ~ran /\ ~pretty /\ pretty' = TRUE /\ UNCHANGED <<modes, brief, outf
 SetOutfile == ~ran /\ ~outfile /\ outfile' = TRUE /\ UNCHANGED <<modes, brief, pretty, features, input, symbols, rfa, ran>>
 SetFeatures == ~ran /\ features = "stable-basic" /\ modes \subseteq {"json"} /\ ~brief /\ features' \in {"stable-all", "unstable-all"} /\ UNCHANGED <<modes, brief, pretty, outfile, input, symbols, rfa, ran>>
 SetInput == ~ran /\ input = "valid" /\ input' \in Inputs \ {"valid"} /\ UNCHANGED <<modes, brief, pretty, outfile, features, symbols, rfa, ran>>
-SetSymbols == ~ran /\ symbols = "none" /\ modes \subseteq {"json", "human"} /\ ~brief /\ ~outfile /\ input = "valid" /\ symbols' \in {"positional", "flag", "both"}
+SetSymbols == ~ran /\ symbols = "none" /\ modes \subseteq {"json", "human", "cyborg"} /\ ~brief /\ ~outfile /\ input = "valid" /\ symbols' \in {"positional", "flag", "both"}
               /\ UNCHANGED <<modes, brief, pretty, outfile, features, input, rfa, ran>>
 \* --recover-function-args is an analysis option of the library: it changes what the reports contain, never which report goes where
 SetRfa == ~ran /\ ~rfa /\ ~outfile /\ ~pretty /\ features = "stable-basic" /\ input = "valid" /\ rfa' = TRUE /\ UNCHANGED <<modes, brief, pretty, outfile, features, input, symbols, ran>>
